@@ -360,8 +360,58 @@ def check_tx_case(case):
     return {'nt': True, 'evals': 1, 'cls': ['tx:' + why, 'chain:' + chain]}
 
 
+def check_constructed_case(case):
+    """blocks built through the CBlock constructor from library objects - incl. mutable transactions that were read (GetTxid /
+    GetHash) and edited before being handed over - must be judged by their CURRENT contents"""
+    b = blk_from_json(case['base'])
+    name = case['mutation']
+    f, kw = MUT[name]
+    if f(b) is False or not b['txs']:
+        return {'nt': False, 'cls': ['inapplicable'], 'evals': 0}
+    finalize(b, **dict(kw, mine=False))
+    vtx = []
+    for i, t in enumerate(b['txs']):
+        if not t['vin']:
+            return {'nt': False, 'cls': ['inapplicable'], 'evals': 0}
+        if case['mutable_mask'] >> (i % 8) & 1:
+            tmp = dict(t, locktime=t['locktime'] ^ 1, vout=list(t['vout']) + [(5, b'\x51')])
+            o = libx.mk_tx(tmp, True)
+            o.GetTxid(); o.GetHash(); hash(o)                 # identifiers read BEFORE the final edits
+            o.nLockTime = t['locktime']
+            del o.vout[-1]
+            vtx.append(o)
+        else:
+            vtx.append(libx.mk_tx(t, False))
+    libx.select('regtest')
+    try:
+        declared = b['root'] if case['declare_root'] and name not in ('wrong-root', 'wrong-root-bitflip') else bytes(32)
+        r0 = libx.call('construct', CBlock, b['version'], b['prev'], declared, b['time'], b['bits'], b['nonce'], vtx, allowed=(ValidationError,))
+        if r0[0] == 'exc':
+            if declared != bytes(32) and declared != M.merkle_root([W.txid(t) for t in b['txs']]):
+                return {'nt': True, 'cls': ['constructed:refused-wrong-root'], 'evals': 1}
+            raise Violation('constructed/refused', 'CBlock(...) with the %s merkle root was refused: %s' % ('right' if declared != bytes(32) else 'zero', r0[1]))
+        blk = r0[1]
+        b2 = dict(b, root=bytes(blk.hashMerkleRoot))
+        exp, why = block_ok(b2, CUR, 'regtest', False, True)
+        r = libx.call('CheckBlock-constructed[%s]' % name, CheckBlock, blk, fCheckPoW=False, cur_time=CUR, allowed=(ValidationError,))
+    finally:
+        libx.select('mainnet')
+    got = r[0] == 'ok'
+    if got != exp:
+        raise Violation('constructed/%s-%s' % ('accepts' if got else 'rejects', why if not exp else 'valid'),
+                        'CheckBlock on a block CONSTRUCTED from objects (mutable mask %#x, mutation %r): library %s, reference %s (%s)' % (
+                            case['mutable_mask'], name, 'accepts' if got else 'rejects: ' + str(r[1])[:80], exp, why))
+    if blk.serialize() != W.enc_block(b2):
+        raise Violation('constructed/bytes', 'constructed block does not serialise to its current contents')
+    return {'nt': True, 'evals': 2, 'cls': ['constructed:' + why, 'mut:' + name]}
+
+
 def check_case(case):
-    return check_tx_case(case) if case['kind'] == 'tx' else check_block_case(case)
+    if case['kind'] == 'tx':
+        return check_tx_case(case)
+    if case['kind'] == 'constructed':
+        return check_constructed_case(case)
+    return check_block_case(case)
 
 
 # ------------------------------------------------------------------ generators
@@ -415,6 +465,10 @@ def t_blocks(ctx):
         for chain in ('mainnet', 'testnet', 'signet'):
             for name in ('none', 'cb-script-101', 'second-cb', 'wrong-root', 'commit-wrong', 'time-late', 'sigops-20001', 'tx-val-max+1'):
                 ctx.run({'kind': 'block', 'base': base, 'mutation': name, 'chain': chain})
+        for k, name in enumerate(('none', 'none', 'none', 'dup-tx', 'second-cb', 'cb-script-101', 'sigops-20001', 'commit-wrong', 'tx-val-neg', 'time-late',
+                                  'cb-wit-31', 'tx-dup-input', 'no-cb')):
+            ctx.run({'kind': 'constructed', 'base': base, 'mutation': name, 'mutable_mask': (0xff, 0x02, 0x55, 0xfe, 0x01, 0xaa)[(k + len(base['txs'])) % 6],
+                     'declare_root': k % 3 == 1})
         for name in ('none', 'wrong-root', 'commit-wrong', 'commit-missing', 'bits-neg', 'hash-above-target', 'cb-wit-31'):
             ctx.run({'kind': 'block', 'base': base, 'mutation': name, 'nomerkle': True})
             ctx.run({'kind': 'block', 'base': base, 'mutation': name, 'nopow': True})
